@@ -62,6 +62,11 @@ pub fn h_policy_adjust_small() {
 }
 
 #[no_mangle]
+pub fn h_policy_adjust_mid() {
+    policy_adjust(24);
+}
+
+#[no_mangle]
 pub fn h_policy_adjust_full() {
     policy_adjust(57);
 }
